@@ -33,6 +33,8 @@ type CollationOrderKey[K chars | []rune] struct {
 func (cok *CollationOrderKey[K]) Transform(k K) ([]byte, []byte) {
 	cok.src = k
 	b := []byte(string(k))
+	// the collation key lives in the reused buffer: it is valid until the next Transform
+	cok.buf.Reset()
 	return b, cok.c.Key(cok.buf, b)
 }
 func (cok *CollationOrderKey[K]) Restore(b []byte) K { return cok.src }
